@@ -1004,3 +1004,100 @@ Proof.
     - destruct tla; [|reflexivity]. exfalso. destruct Hbad as [Hdup|[Hne _]]; [apply Hdup; constructor|apply Hne; reflexivity]. }
   unfold run_gen, compute. destruct Hp as [Hp|Hp]; rewrite Hp; cbn; discriminate.
 Qed.
+
+(* ------------------------------------------------------------------ what the session is told about external variables *)
+
+Lemma ext_loop_spec : forall (A : Type) (name : A -> bytes) (mk : A -> option thunk) l names ext names' ext',
+  ext_loop name mk l names ext = Some (names', ext') ->
+  exists ts, Forall2 (fun a t => mk a = Some t) l ts /\
+    ext' = ext ++ combine (map name l) ts /\
+    names' = rev (map name l) ++ names /\
+    (forall a, In a l -> ~ In (name a) names) /\ NoDup (map name l).
+Proof.
+  intros A name mk; induction l as [|a r IH]; intros names ext names' ext' H; cbn in H.
+  - inversion H; subst. exists []. cbn. rewrite app_nil_r. repeat split; auto; constructor.
+  - destruct (mem_bytes (name a) names) eqn:Em; [discriminate|].
+    destruct (mk a) as [t|] eqn:Et; [|discriminate].
+    destruct (IH _ _ _ _ H) as (ts & Hf2 & Hext & Hnames & Hfresh & Hnd).
+    assert (Hna : ~ In (name a) names).
+    { intros Hc. apply mem_bytes_In in Hc. congruence. }
+    exists (t :: ts). split; [constructor; assumption|]. split; [|split; [|split]].
+    + rewrite Hext. cbn. rewrite <- app_assoc. reflexivity.
+    + rewrite Hnames. cbn. rewrite <- app_assoc. reflexivity.
+    + intros b [E|Hb]; [subst b; exact Hna|]. intros Hc. apply (Hfresh b Hb). right; exact Hc.
+    + cbn. constructor; [|exact Hnd]. intros Hc. apply in_map_iff in Hc. destruct Hc as (b & Eb & Hb).
+      apply (Hfresh b Hb). left. symmetry; exact Eb.
+Qed.
+
+(* on success the session has been given, in this order, one binding per --ext-str,
+   --ext-str-file, --ext-code, --ext-code-file argument, under the argument's own name,
+   all names distinct; a string variable is bound to exactly the bytes supplied *)
+Theorem ext_bindings_exact : forall c w ext,
+  all_ext c w = Some ext ->
+  exists t1 t2 t3 t4,
+    Forall2 (fun a t => ext_str_to_thunk w a = Some t) (c_ext_str c) t1 /\
+    Forall2 (fun a t => ext_str_file_to_thunk w a = Some t) (c_ext_str_file c) t2 /\
+    Forall2 (fun a t => ext_code_to_thunk w lit_ext a = Some t) (c_ext_code c) t3 /\
+    Forall2 (fun a t => ext_code_file_to_thunk w a = Some t) (c_ext_code_file c) t4 /\
+    ext = combine (map vo_var (c_ext_str c)) t1 ++ combine (map vf_var (c_ext_str_file c)) t2 ++
+          combine (map vo_var (c_ext_code c)) t3 ++ combine (map vf_var (c_ext_code_file c)) t4 /\
+    NoDup (map vo_var (c_ext_str c) ++ map vf_var (c_ext_str_file c) ++
+           map vo_var (c_ext_code c) ++ map vf_var (c_ext_code_file c)).
+Proof.
+  intros c w ext H. unfold all_ext in H.
+  destruct (ext_loop vo_var (ext_str_to_thunk w) (c_ext_str c) [] []) as [[n1 e1]|] eqn:E1; [|discriminate].
+  destruct (ext_loop vf_var (ext_str_file_to_thunk w) (c_ext_str_file c) n1 e1) as [[n2 e2]|] eqn:E2; [|discriminate].
+  destruct (ext_loop vo_var (ext_code_to_thunk w lit_ext) (c_ext_code c) n2 e2) as [[n3 e3]|] eqn:E3; [|discriminate].
+  destruct (ext_loop vf_var (ext_code_file_to_thunk w) (c_ext_code_file c) n3 e3) as [[n4 e4]|] eqn:E4; [|discriminate].
+  inversion H; subst e4. clear H.
+  destruct (ext_loop_spec _ _ _ _ _ _ _ _ E1) as (t1 & F1 & X1 & N1 & R1 & D1).
+  destruct (ext_loop_spec _ _ _ _ _ _ _ _ E2) as (t2 & F2 & X2 & N2 & R2 & D2).
+  destruct (ext_loop_spec _ _ _ _ _ _ _ _ E3) as (t3 & F3 & X3 & N3 & R3 & D3).
+  destruct (ext_loop_spec _ _ _ _ _ _ _ _ E4) as (t4 & F4 & X4 & N4 & R4 & D4).
+  exists t1, t2, t3, t4. repeat (split; [assumption|]). split.
+  - rewrite X4, X3, X2, X1. cbn. rewrite <- !app_assoc. reflexivity.
+  - rewrite app_nil_r in N1. subst n1 n2 n3.
+    assert (Hdisj : forall (l1 l2 : list bytes), NoDup l1 -> NoDup l2 -> (forall x, In x l2 -> ~ In x l1) -> NoDup (l1 ++ l2)).
+    { induction l1 as [|x r IHl]; intros l2 Hn1 Hn2 Hd; cbn; [exact Hn2|].
+      inversion Hn1; subst. constructor.
+      - intros Hc. apply in_app_or in Hc. destruct Hc as [Hc|Hc]; [contradiction|]. apply (Hd x Hc). left; reflexivity.
+      - apply IHl; auto. intros y Hy Hc. apply (Hd y Hy). right; exact Hc. }
+    apply Hdisj; [exact D1| |].
+    + apply Hdisj; [exact D2| |].
+      * apply Hdisj; [exact D3|exact D4|].
+        intros x Hx Hc. apply in_map_iff in Hx. destruct Hx as (a & Ea & Ha). subst x.
+        apply (R4 a Ha). apply in_or_app. left. apply in_rev in Hc. exact Hc.
+      * intros x Hx Hc. apply in_app_or in Hx. destruct Hx as [Hx|Hx]; apply in_map_iff in Hx; destruct Hx as (a & Ea & Ha); subst x.
+        -- apply (R3 a Ha). apply in_or_app. left. apply in_rev in Hc. exact Hc.
+        -- apply (R4 a Ha). apply in_or_app. right. apply in_or_app. left. apply in_rev in Hc. exact Hc.
+    + intros x Hx Hc. apply in_app_or in Hx. destruct Hx as [Hx|Hx].
+      * apply in_map_iff in Hx; destruct Hx as (a & Ea & Ha); subst x.
+        apply (R2 a Ha). apply in_rev in Hc. exact Hc.
+      * apply in_app_or in Hx. destruct Hx as [Hx|Hx]; apply in_map_iff in Hx; destruct Hx as (a & Ea & Ha); subst x.
+        -- apply (R3 a Ha). apply in_or_app. right. apply in_rev in Hc. exact Hc.
+        -- apply (R4 a Ha). apply in_or_app. right. apply in_or_app. right. apply in_rev in Hc. exact Hc.
+Qed.
+
+Lemma ext_str_exact : forall w k v, ~ In EQ k ->
+  ext_str_to_thunk w (parse_var_opt_val (k ++ EQ :: v)) = Some (ThStr v).
+Proof.
+  intros w k v Hn. destruct (var_split_at_first_eq k v Hn) as [Hp _]. rewrite Hp. reflexivity.
+Qed.
+
+(* the session the oracles see is the one configured from the flags *)
+Lemma prepare_session : forall c w s v warned, prepare c w = POk s v warned ->
+  exists ext, all_ext c w = Some ext /\ s = mk_session c w ext.
+Proof.
+  intros c w s v warned H. unfold prepare in H.
+  destruct (negb (w_clap_ok w)); [discriminate|]. destruct (c_string c && c_yaml c); [discriminate|].
+  destruct (load_input c w); [|discriminate]. destruct (all_ext c w) as [ext|]; [|discriminate].
+  exists ext. split; [reflexivity|].
+  destruct (all_tla c w) as [[tla wn]|]; [|discriminate].
+  destruct (w_eval w (mk_session c w ext) (ThLoaded n)); [|discriminate].
+  destruct (w_shape w v0).
+  - destruct (bind_tla params tla); try discriminate. destruct (w_call w (mk_session c w ext) v0 a); [|discriminate]. inversion H; reflexivity.
+  - destruct tla; [inversion H; reflexivity|discriminate].
+  - destruct tla; [inversion H; reflexivity|discriminate].
+  - destruct tla; [inversion H; reflexivity|discriminate].
+  - destruct tla; [inversion H; reflexivity|discriminate].
+Qed.
